@@ -273,6 +273,80 @@ pub async fn replay_scenario(
     std::mem::take(&mut w.lines)
 }
 
+/// An ungated run: the engine schedules itself on the runtime's own threads; the harness only
+/// starts the process and answers every open interrupt with complete whenever the engine is
+/// quiescent.  One recorded step per quiescent point.
+pub async fn natural_scenario(
+    line: &Value,
+    mi: usize,
+    input: &Value,
+    cfg: &Cfg,
+    workdir: &str,
+    rng: &mut StdRng,
+    flavour: &str,
+) -> Vec<Value> {
+    let name = line["name"].as_str().unwrap();
+    let model_text = line["model"].as_str().unwrap();
+    let mut w = World::new_with(cfg, workdir, "n", &line["spec"], false).await;
+    let tree = engine_tree(model_text);
+    w.model_line(name, tree.clone(), input, json!({"mi": mi + 1, "rt": flavour, "natural": true}));
+    if tree["ok"] != json!(true) || w.deploy(model_text).is_err() {
+        return std::mem::take(&mut w.lines);
+    }
+    let mid = line["spec"]["id"].as_str().unwrap().to_string();
+    let pid = "p1";
+    w.start_call(&mid, pid, input).await;
+    for _ in 0..100 {
+        let tasks = w.tasks(pid);
+        let open: Vec<Key> = tasks
+            .iter()
+            .filter(|t| t.1 == "act" && t.2 == "interrupted")
+            .map(|t| t.0.clone())
+            .collect();
+        if open.is_empty() {
+            break;
+        }
+        let k = open.choose(rng).unwrap().clone();
+        if rng.gen_bool(0.3) {
+            tokio::time::sleep(std::time::Duration::from_micros(rng.gen_range(0..300))).await;
+        }
+        w.act(pid, &k, "complete", &json!({"ecode": "nil", "to": "nil"}))
+            .await;
+    }
+    w.lines.push(json!({"ev": "end", "steps": w.steps}));
+    std::mem::take(&mut w.lines)
+}
+
+pub fn natural(args: &Args) -> i32 {
+    let models = read_ndjson(&args.str("models", ""));
+    let mut out = Out::new(&args.str("out", "trace.ndjson"));
+    let seed = args.num("seed", 1);
+    let runs = args.num("runs", 10) as usize;
+    let workdir = args.str("workdir", "/verif/.work/run");
+    let flavours: Vec<String> = args
+        .str("rt", "ct,mt1,mt2,mt4,mt8")
+        .split(',')
+        .map(|s| s.to_string())
+        .collect();
+    let cfg = Cfg::default();
+    let mut rng = StdRng::seed_from_u64(seed);
+    let offset = args.num("offset", 0) as usize;
+    for i in 0..runs {
+        let mi = (offset + i) % models.len();
+        let line = &models[mi];
+        let inputs = line["inputs"].as_array().unwrap();
+        let input = inputs.choose(&mut rng).unwrap().clone();
+        let flavour = &flavours[i % flavours.len()];
+        let rt = runtime(flavour);
+        let lines = rt.block_on(natural_scenario(line, mi, &input, &cfg, &workdir, &mut rng, flavour));
+        rt.shutdown_background();
+        out.write(&lines);
+    }
+    out.flush();
+    eprintln!("natural: {} runs, {} lines", runs, out.lines);
+    0
+}
+
 pub fn replay(args: &Args) -> i32 {
     let models = read_ndjson(&args.str("models", ""));
     let behs = read_ndjson(&args.str("behaviours", ""));
